@@ -326,13 +326,13 @@ def suites_for(pid, rng, tier):
     FG = ("fgroup", "fgroup_keyed")
     SG = ("sgroup", "sgroup_keyed")
 
-    def nest_sim(name, cfgs=("std", "alloc")):
-        """a Vec join of two Vec joins, a.join(b) of two Vec joins, a Vec merge of two Vec merges, a FutureGroup of two joins, a StreamGroup of two merges
-           (std and alloc builds), predicted by composing the extracted model with itself (runner/main.ml nest_trace):
+    def nest_sim(name, cfgs=("std", "alloc"), skip=()):
+        """every nest the harness builds - join of joins, a.join(b) of joins, join of races, race of joins, merge / chain / zip of merges, a FutureGroup
+           of joins, a StreamGroup of merges - in the std and alloc builds, predicted by composing the extracted model with itself (runner/main.ml nest_trace):
            kind "nsim" = like "scan" (model trace compared under the projection, monitor on the implementation's trace), without the corpus and
            without the extracted single-level predicates"""
         for c in cfgs:
-            S.append((name, c, "nsim", gen.gen_nest(rng, ks // 2, "y" + c[0], combs=("nest_jj", "nest_mm", "nest_jt", "nest_gj", "nest_gm"))))
+            S.append((name, c, "nsim", gen.gen_nest(rng, ks // 2, "y" + c[0], combs=tuple(x for x in ("nest_jj", "nest_mm", "nest_jt", "nest_gj", "nest_gm", "nest_jr", "nest_rj", "nest_cm", "nest_zm") if x not in skip))))
     if pid == "C01":
         fixed("wake", CFG3, SCAN4 + ["race", "race_ok", "chain"])
         fixed("wake-large", ("std", "alloc"), SCAN4, ks // 4, large=True)
@@ -402,7 +402,7 @@ def suites_for(pid, rng, tier):
         groups("selective-groups", ("std",), FG + SG, k)
         small("selective-join", ("std",), "join")
         small("selective-merge", ("std",), "merge")
-        nest_sim("selective-nest-sim", ("std",))
+        nest_sim("selective-nest-sim", ("std",), skip=("nest_jr",))      # a race polls all its children in every poll: not a combinator C16 speaks about
         return "polls-nv", S
     if pid == "C17":
         for c in CFG3:
@@ -713,7 +713,9 @@ def decide(pid, tier, seed):
             if len(stats["samples"]) < 4 and nontriv and idx % 97 == 3:
                 stats["samples"].append(dict(suite=sname, config=cfg, case=case, implementation_trace=a))
             why = None
-            if mon is not None and kind != "cov":
+            # (a zip or a chain of merges deliberately leaves a woken leaf unpolled - an input held back, an input whose turn has not come: the
+            #  leaf-level monitors, which know no "awaited" per level, do not apply; those nests are judged by the composed model alone)
+            if mon is not None and kind != "cov" and not (kind == "nsim" and case.split(" ")[1] in ("nest_cm", "nest_zm")):
                 try:
                     cs = Case(case)
                     why = mon(cs, ta)
